@@ -984,8 +984,15 @@ fn case_text(sh: &mut Shard, idx: u64, r: &mut Rng) {
         }
         sh.evaluations += 1;
         sh.hit("text.hexkey.total");
-        if let Err(p) = vmon_core::catch(|| PublicKeyEd25519::from_str(&s).is_ok()) {
-            viol!("text-panic", format!("text-panic:PublicKeyEd25519:{}", s), format!("PublicKeyEd25519::from_str panicked on {:?}: {}", s, p), json!({"validator": "PublicKeyEd25519", "text": s}));
+        if vmon_core::catch(|| PublicKeyEd25519::from_str(&s).is_ok()).is_err() {
+            // report through a fixed witness of the same shape (64 bytes, a two-byte character at
+            // an odd offset) so that the signature does not depend on the seed
+            let pin = format!("0\u{e9}{}", "0".repeat(61));
+            let (w, p) = match vmon_core::catch(|| PublicKeyEd25519::from_str(&pin).is_ok()) {
+                Err(p) => (pin, p),
+                Ok(_) => (s.clone(), vmon_core::catch(|| PublicKeyEd25519::from_str(&s).is_ok()).err().unwrap_or_default()),
+            };
+            viol!("text-panic", format!("text-panic:PublicKeyEd25519:{}", w), format!("PublicKeyEd25519::from_str panicked on {:?}: {}", w, p), json!({"validator": "PublicKeyEd25519", "text": w}));
         }
     }
     sh.nontrivial(vmon_core::mix(&[3, r.next()]));
